@@ -48,7 +48,7 @@ RULE = ("batch: event lists (Call/Tick/Close) x configurations (write/read, ling
         "exact fits) x executor scripts (per request: attempts that stream k answers and fail with a retriable status, then ok / error / short / long), distinct by content; stream: interleavings of "
         "sends (ok/failed), responses, receive errors, per-request context cancellations, closure; merge: 0..8 per-shard streams over a '/'-rich key alphabet, "
         "errors anywhere, duplicates, unsorted streams, non-trivial = 2+ streams; mget: 1..6 shards, all comparison types, "
-        "errors/not-found/OK mixes, secondary keys, partial arrivals, random callback order, non-trivial = 2+ shards; "
+        "errors/not-found/OK mixes, secondary-index gets (answers carry primary and secondary key), answers whose primary or secondary key equals the search key, partial arrivals, every arrival order of one answer set for <= 4 shards, random callback order, observations per arrival, non-trivial = 2+ shards; "
         "list: 1..5 shards with errors; listc (child process each): 1..4 gated shard streams, forwards, cancellation, "
         "give-ups; e2e: 30-120 operations per scenario over 1..4 shards, 3 lingers, 4 count limits, "
         "3 byte limits, injected request failures, close under load")
